@@ -399,7 +399,7 @@ def reduce (db : Db) (o : Obj) : Except ErrKind Obj :=
 
 /-! ### arithmetic (`Array._DoOperation`) -/
 
-inductive AOp | sum | sub | mul | div
+inductive AOp | sum | sub | mul | div | floordiv
 deriving DecidableEq, Repr
 
 /-- the other operand of an arithmetic operator -/
@@ -513,6 +513,8 @@ def opInDomain : AOp → Qty → Qty → Bool
   | .mul, _, _ => true
   | .div, _, .empty => true
   | .div, _, _ => false
+  | .floordiv, _, .empty => true
+  | .floordiv, _, _ => false
 
 /-- the validation `Quantity.CreateDerived` runs on the single category of a product / quotient
 with a number -/
@@ -549,6 +551,10 @@ def opFuncSimple (db : Db) : OpFunc
     match validated db q1 with
     | .error e => .error e
     | .ok q => if b = 0 then .error .other else .ok (q, a / b)   -- ZeroDivisionError (list / tuple)
+  | .floordiv, q1, _, a, b =>                                     -- `//`: FloorDivide, the exponents of Divide
+    match validated db q1 with
+    | .error e => .error e
+    | .ok q => if b = 0 then .error .other else .ok (q, ((a / b).floor : Int))
 
 /-! ### Python indexing -/
 
@@ -649,6 +655,11 @@ inductive Rhs
   | operand (p : Operand) (selfLeft : Bool)
 deriving DecidableEq, Repr
 
+/-- the attributes of a FixedArray that are properties without a setter (`dimension`, `values`, `unit`,
+`category`, `quantity_type`): assigning to them is `AttributeError` and assigns nothing -/
+inductive ReadOnlyAttr | dimension | values | unit | category | quantityType
+deriving DecidableEq, Repr
+
 inductive Op
   | copy                                           -- `copy.copy`, `copy.deepcopy`, `Copy()`: the object itself
   | createCopy (values : Option ValArg) (unit category : Option Sym)
@@ -656,6 +667,7 @@ inductive Op
   | arith (op : AOp) (rhs : Rhs)
   | changingIndex (index : Int) (value : CIValue) (useValueUnit : Bool)
   | indexAsScalar (index : Int) (quantity : Option Qty)
+  | assign (attr : ReadOnlyAttr)                   -- `array.<attr> = anything`: there is no mutator
 deriving DecidableEq, Repr
 
 inductive Cmd
@@ -687,6 +699,7 @@ def runOp (db : Db) (F : OpFunc) (store : List Obj) (src : Obj) : Op → Except 
     match indexAsScalar db src index quantity with
     | .ok s => .ok (.scalar s)
     | .error e => .error e
+  | .assign _ => .error .other                     -- AttributeError: property without a setter
 
 def runCmd (db : Db) (F : OpFunc) (store : List Obj) : Cmd → Except ErrKind Out
   | .make r => outObj (runRoute db r)
